@@ -1,3 +1,4 @@
+import Cactus.Lemmas.Final
 import Cactus.Lemmas.Basic
 import Cactus.Props.C05
 import Cactus.Props.C12
@@ -35,5 +36,43 @@ theorem C10_upgrade_dying_peer (s : State) (fh fw : List Nat) (k o : Nat) (ob : 
 skips the object whose table is being iterated -/
 theorem C10_no_nested_self_borrow (x : Nat) (s : State) (e : Link × Nat) (h : e.1.ptr = x) :
     purgeOne x s e = s := C12_purge_skips_self x s e h
+
+
+/-! ## C01–C06 continue to hold while destructors run
+
+`Reachable`/`ReachableP` contain every *intermediate* machine state: between any two steps of a
+teardown — in particular right before and right after every action of every destructor script, at
+any nesting depth, including nested collections started by a destructor.  The invariants are
+predicates of one state including its control stack, so no separate re-entrancy argument exists. -/
+
+/-- at every point of every teardown (stack non-empty or not) all unconditional invariants hold:
+object states, bookkeeping (C08), exact strong (C06) and weak (C05) counts, no double release -/
+theorem C10_invariants_hold_mid_teardown {s : State} (h : Reachable s) (he : s.err = none) :
+    s.InvO ∧ s.InvB ∧ s.InvC ∧ s.InvW ∧ s.InvK := (reachable_core h he).1
+
+/-- and in contract-respecting executions so does safety (C01/C02): what the program or any live
+value holds is live; what a pending frame holds has not been released -/
+theorem C10_safety_holds_mid_teardown {s : State} (h : ReachableP s) (he : s.err = none) :
+    (∀ o, 0 < s.ext o + s.inHeap o → s.isLive o = true)
+    ∧ (∀ o, 0 < s.pend o → (s.cell o).isSome = true) := by
+  have hS := reachableP_invS h he
+  refine ⟨hS.1, ?_⟩
+  intro o hp
+  cases hl : s.isLive o with
+  | true => exact State.isLive_cell_isSome hl
+  | false =>
+    obtain ⟨ob, hg, hs, _, himp⟩ := hS.2.1 o hp hl
+    have hO := (reachable_core h.reachable he).1.1
+    have hW := (reachable_core h.reachable he).1.2.2.2.1
+    have hlt := State.get_lt hg
+    have hw := hW o hlt
+    have hfz := (hO o ob hg).2.2.2
+    have : ob.freed = false := by
+      cases hf : ob.freed with
+      | false => rfl
+      | true =>
+        have h0 := hfz.mp hf
+        simp [State.weakNat, hg, State.implicitNat, himp, h0] at hw
+    simp [State.cell, hg, this]
 
 end Cactus
